@@ -1,4 +1,11 @@
 import InToto.Properties.C08
+#print axioms InToto.C08.sublayout_verified_and_replaced
+#print axioms InToto.C08.sublayouts_verified_all_steps
+#print axioms InToto.C08.inner_failure_fails_parent
+#print axioms InToto.C08.stage_error_is_inner_error
+#print axioms InToto.C08.only_counted_evidence_is_followed
+#print axioms InToto.C08.counted_evidence_is_authorized
+#print axioms InToto.C08.no_sublayouts_no_effects
 #print axioms InToto.C08.sublayout_dir_name
 #print axioms InToto.C08.missing_subdir_is_empty
 #print axioms InToto.C08.depth_positive
